@@ -89,6 +89,11 @@ def tracing_rule(F, R, rid, markers, hb, every_path=True, allow=None, floor=15):
 
 
 def run(F, R, ctx):
+    _run_main(F, R, ctx)
+    pointer_queued_rule(F, R)
+
+
+def _run_main(F, R, ctx):
     R.rule("C04.a", "for each marker (MarkAndSweepContext, GlobalSlotRecycler, MarkAndSweepContextRefQueue) and each "
                     "visit_<kind> method: every field of the payload type that can own a heap handle (HANDLE(T), computed "
                     "from field types; Weak* excluded) is read by the method or a steel callee within 2 levels")
@@ -449,3 +454,46 @@ def root_loop_rule(F, R):
                    "not a root, so storage reachable only from a running frame is swept and handed out again"
                    % (fn.short(), b.get("line")), fn.loc(b.get("line")), sample=True)
     R.floor("C04.k", "loops over stack frames in root enumeration / continuation visitors", n_loops, 4)
+
+
+def pointer_queued_rule(F, R):
+    from .c07 import _backward, _origins
+    R.rule("C04.q", "a marker never drops a pointer it has extracted: in every function of the collector that turns a value into "
+                    "a heap pointer (SteelValPointer::from_value) the pointer of the Some outcome reaches a queue (an argument "
+                    "of push / push_back / send derives from it) on every path from there to the return. nc: a pointer taken "
+                    "off a value and not queued is a reachable object that is not marked — its slot counts as free and a later "
+                    "allocation overwrites it (e.g. only when a local backlog happens to be full: a size threshold)")
+    n = 0
+    for name, fn in sorted(F.fns.items()):
+        if not name.startswith("steel::values::closed::"):
+            continue
+        fv = [(i, b) for i, b in fn.calls() if re.search(r"\{impl SteelValPointer\}::from_value$", b["callee"]) and b.get("dest")]
+        if not fv:
+            continue
+        maps = _backward(fn)
+        for i, b in fv:
+            d = b["dest"].split(".")[0]
+            # the switch on the Option
+            nxt, hops = b.get("ret"), 0
+            while nxt is not None and fn.blocks[nxt]["k"] == "goto" and hops < 3:
+                nxt, hops = fn.blocks[nxt]["s"][0], hops + 1
+            if nxt is None or fn.blocks[nxt]["k"] != "switch":
+                continue
+            am = lib.arm_map(fn, nxt)
+            some = am.get("Some", am["_"])
+            if some == am.get("None"):
+                continue
+            n += 1
+            pushes = set()
+            for j, pb in fn.calls():
+                if re.search(r"::(push|push_back|send|push_front|extend)$", pb["callee"]) and len(pb["args"]) >= 2:
+                    for t in lib.TOK.findall(pb["args"][1]):
+                        if d in {o.split(".")[0] for o in _origins(fn, t, maps, depth=10)} | {t.split(".")[0]}:
+                            pushes.add(j)
+            region = fn.reachable_from([some], avoid=pushes | {nxt})
+            leaks = [r for r in fn.returns() if r in region]
+            R.inst("C04.q", "%s / the extracted pointer is queued on every path" % fn.short(), bool(pushes) and not leaks,
+                   "%s extracts a heap pointer from a value (line %s) and can return without handing it to a queue: the object "
+                   "behind it is reachable but is not marked on that path, so a full collection frees its slot" % (fn.short(), b["line"]),
+                   fn.loc(b["line"]), sample=True)
+    R.floor("C04.q", "pointer extractions in the markers", n, 1)
